@@ -109,6 +109,7 @@ def _pick_subinterval(r, n, m):
 def _random_case(r, viol, stats, seen_cfg):
     n, m = oc.gen_nm(r, 50, 1, ns=(2, 3, 4, 5, 6, 7))
     lo, hi = oc.gen_box(r, n)
+    m = oc.common.cap_density(lo, hi, m)
     ev = oc.mk_ev(lo, hi, n, m)
     g = oc.Grid(lo, hi, m)
     tot = 2 ** (n * m)
